@@ -79,6 +79,8 @@ void gen_chain(int kind, size_t depth, int leaf, struct vh_buf* out, size_t* ope
   }
   size_t levels = depth;
   if (leaf == 0) vb_u8(out, 0x05);
+  else if (leaf == 3) vb_u8(out, 0x80); /* empty definite array: completes at its head, never becomes open */
+  else if (leaf == 4) vb_u8(out, 0xa0); /* empty definite map: likewise */
   else {
     vb_u8(out, leaf == 1 ? 0x5f : 0x7f);
     levels++;
